@@ -528,7 +528,7 @@ class Flow:
                 return res
             isnone = other is None
             return [(st, isnone if isinstance(op, ast.Is) else not isnone)]
-        conc = (int, str, bool, type(None), tuple)
+        conc = (int, str, bool, type(None), tuple, frozenset)
         if isinstance(l, conc) and isinstance(r, conc) and not _has_abs(l) and not _has_abs(r):
             try:
                 res = {
@@ -857,7 +857,11 @@ class Flow:
                 # input[pos:].startswith(x)  ==  input.startswith(x, pos)
                 return self.input_method(st, name, [args[0], recv[1]], node)
             if name == "parse" and len(args) == 2 and isinstance(args[0], PathRef) and args[0].path == "state":
-                cid = recv if isinstance(recv, ChildRef) else ChildRef(ast.unparse(node.func.value) if isinstance(node.func, ast.Attribute) else "?", 0)
+                text = ast.unparse(node.func.value) if isinstance(node.func, ast.Attribute) else "?"
+                if isinstance(recv, Opq) and "rules" in recv.src and any(k in recv.src for k in ("WHITESPACE", "COMMENT", "SKIP")):
+                    # a rule looked up by name keeps that identity through renames, helper parameters and loops
+                    text = recv.src
+                cid = recv if isinstance(recv, ChildRef) else ChildRef(text, 0)
                 return self.child(st, cid, args[1], args[0])
             if name == "match" and len(args) == 2 and isinstance(self.deref(st, args[0]), Sym):
                 return self.regex_match(st, recv, self.deref(st, args[1]), node)
